@@ -1056,6 +1056,51 @@ func (c *Ctx) fnBase(fn *ssa.Function) string {
 
 // addrKey names the variable an address denotes.
 func (c *Ctx) addrKey(v ssa.Value) string {
+	return c.addrKeyD(v, 0)
+}
+
+func (c *Ctx) addrKeyD(v ssa.Value, depth int) string {
+	// a pointer held in a variable that is set once (`done := &wg`, also
+	// when a goroutine's function literal captures that variable): the
+	// variable the pointer denotes
+	if ld, ok := ir.Strip(v).(*ssa.UnOp); ok && ld.Op == token.MUL && depth < 4 {
+		cell := ld.X
+		if fv, isFV := cell.(*ssa.FreeVar); isFV {
+			cl := fv.Parent()
+			idx := -1
+			for i, x := range cl.FreeVars {
+				if x == fv {
+					idx = i
+				}
+			}
+			var bound ssa.Value
+			n := 0
+			if outer := cl.Parent(); outer != nil && idx >= 0 {
+				ir.Instrs(outer, func(in ssa.Instruction) {
+					if mc, ok := in.(*ssa.MakeClosure); ok && mc.Fn == ssa.Value(cl) && idx < len(mc.Bindings) {
+						bound = mc.Bindings[idx]
+						n++
+					}
+				})
+			}
+			if n == 1 {
+				cell = bound
+			}
+		}
+		if al, isAl := cell.(*ssa.Alloc); isAl {
+			var vals []ssa.Value
+			for _, r := range ir.Refs(al) {
+				if st, isSt := r.(*ssa.Store); isSt && st.Addr == ssa.Value(al) {
+					vals = append(vals, st.Val)
+				}
+			}
+			if len(vals) == 1 {
+				if _, isPtr := vals[0].Type().Underlying().(*types.Pointer); isPtr {
+					return c.addrKeyD(vals[0], depth+1)
+				}
+			}
+		}
+	}
 	switch a := ir.Strip(v).(type) {
 	case *ssa.FieldAddr:
 		return c.fieldKey(a.X.Type(), ir.FieldOfAddr(a))
